@@ -29,7 +29,8 @@
 EXTENDS CliPath
 
 JS   == "application/javascript"
-\* README "Types": default extension mapping to mimetype (xhtml/webmanifest/rss are not used by generators)
+\* README "Types": default extension mapping to mimetype "(and thus minifier)"; webmanifest/rss are not used by generators;
+\* xhtml: the README prints application/xhtml-xml, which names no minifier - read as the registered application/xhtml+xml
 ExtTable == {
   [e |-> <<99, 115, 115>>,          t |-> "text/css"],
   [e |-> <<104, 116, 109>>,         t |-> "text/html"],
@@ -39,10 +40,11 @@ ExtTable == {
   [e |-> <<109, 106, 115>>,         t |-> JS],
   [e |-> <<114, 115, 115>>,         t |-> "application/rss+xml"],
   [e |-> <<115, 118, 103>>,         t |-> "image/svg+xml"],
+  [e |-> <<120, 104, 116, 109, 108>>, t |-> "application/xhtml+xml"],
   [e |-> <<120, 109, 108>>,         t |-> "text/xml"] }
 MimeByName == [css |-> "text/css", htm |-> "text/html", html |-> "text/html", js |-> JS,
                json |-> "application/json", mjs |-> JS, rss |-> "application/rss+xml",
-               svg |-> "image/svg+xml", xml |-> "text/xml"]
+               svg |-> "image/svg+xml", xhtml |-> "application/xhtml+xml", xml |-> "text/xml"]
 \* extensions that are certainly not mapped to a minifier (anything else makes the scenario unspecified,
 \* because the tool knows more extensions than its README lists)
 SafeUnknownExt == { <<>>, <<116, 120, 116>>, <<98, 97, 107>>, <<100, 97, 116>>, <<109, 100>> }
@@ -198,16 +200,11 @@ Plan(sc) ==
       \* narrow constructs with a confirmed, not yet fixed defect (left to pinned witnesses).  Empty since the fixes
       \* bdbfbd6 (stale <name>.bak: refuse), 282e2ab (backup cleaned up for aliased outputs), ec8cfb8 (sync copies a
       \* named file of unknown type), f8787e2 (`src/.` = `src/`): these constructs are generated again.
-      \* Still open (known/C20.txt): with parallel workers the test "does <src>.bak exist" races with another task of the
-      \* same run that is moving that very file (its own backup step) - excluded while the name <src>.bak of a file
-      \* minified onto itself is a source or destination of another task.
-      known == (IF \E k \in fileDst : InPlace(k) /\ tasks[k].mode = "min" /\
-                     LET b == RealOf(T, Comps(tasks[k].srcs[Min(OntoSrc(k))] \o BakSuffix), FALSE).cs IN
-                     \E u \in 1..nT : u # k /\ (dstReal[u] = b \/ \E j \in 1..Len(tasks[u].srcs) :
-                            tasks[u].srcs[j] # <<>> /\ RealOf(T, Comps(tasks[u].srcs[j]), FALSE).cs = b)
-               THEN {"bakrace"} ELSE {})
-        \* Still open (known/C19.txt): a file that sync mode copies onto itself through another spelling of its name
-        \cup (IF \E k \in fileDst : InPlace(k) /\ tasks[k].mode = "copy" /\ ~SpelledSame(k) THEN {"syncalias"} ELSE {})
+      \* (f452f5d: a task whose backup name belongs to another task of the run is not started; 38012cd: sync leaves a file
+      \* alone that it would copy onto itself through another spelling - both constructs are generated again.)
+      \* Still open (known/C19.txt): README "Types" promises a minifier for every listed extension, but xhtml is mapped to the
+      \* string "application/xhtml-xml" for which none exists; the registered type application/xhtml+xml (RFC 3236) is XML.
+      known == IF \E k \in 1..nT : tasks[k].type = "application/xhtml+xml" THEN {"xhtml"} ELSE {}
   IN [tasks |-> tasks, unspec |-> unspec, hazard |-> hazard, known |-> known,
       inplace |-> {k \in fileDst : InPlace(k)}, refuse |-> {k \in fileDst : Refused(k)}, dstReal |-> [k \in 1..nT |-> JoinComps(dstReal[k])]]
 =============================================================================
